@@ -150,6 +150,13 @@ pub open spec fn s_reach(t: STerm, r: STerm) -> bool {
     exists|n: nat| s_steps(t, n) == Some(r)
 }
 
+// zero or one step of the reference semantics ("zero" = a silent step that only replaces a resolved hole
+// by its content; the abstract view does not change)
+#[verifier::opaque]
+pub open spec fn s_step01(a: STerm, b: STerm) -> bool {
+    b == a || s_step(a) == Some(b)
+}
+
 // ---- unfolding lemmas for the exec proof --------------------------------------------------------
 
 pub broadcast proof fn lemma_step_var(i: nat)
@@ -245,6 +252,67 @@ pub proof fn lemma_step_let(kids: Seq<STerm>)
     reveal(s_step);
     assert(STerm::Node(Kind::Let, kids)->Node_1 == kids);
 }
+
+pub broadcast proof fn lemma01_refl(a: STerm)
+    ensures #[trigger] s_step01(a, a)
+{
+    reveal(s_step01);
+}
+
+pub broadcast proof fn lemma01_real(a: STerm, b: STerm)
+    requires s_step(a) == Some(b)
+    ensures #[trigger] s_step01(a, b)
+{
+    reveal(s_step01);
+}
+
+pub broadcast proof fn lemma01_bin_left(k: Kind, a: STerm, b: STerm, a1: STerm)
+    requires is_binary(k), s_step01(a, a1)
+    ensures #[trigger] s_step01(STerm::Node(k, s2(a, b)), STerm::Node(k, s2(a1, b)))
+{
+    reveal(s_step01);
+    lemma_step2(k, a, b);
+}
+
+pub broadcast proof fn lemma01_bin_right(k: Kind, a: STerm, b: STerm, b1: STerm)
+    requires is_binary(k), s_step(a) is None, s_value(a), s_step01(b, b1)
+    ensures #[trigger] s_step01(STerm::Node(k, s2(a, b)), STerm::Node(k, s2(a, b1)))
+{
+    reveal(s_step01);
+    lemma_step2(k, a, b);
+}
+
+pub broadcast proof fn lemma01_neg(a: STerm, a1: STerm)
+    requires s_step01(a, a1)
+    ensures #[trigger] s_step01(STerm::Node(Kind::Neg, s1(a)), STerm::Node(Kind::Neg, s1(a1)))
+{
+    reveal(s_step01);
+    lemma_step1(a);
+}
+
+pub broadcast proof fn lemma01_if(a: STerm, b: STerm, c: STerm, a1: STerm)
+    requires s_step01(a, a1)
+    ensures #[trigger] s_step01(STerm::Node(Kind::If, s3(a, b, c)), STerm::Node(Kind::If, s3(a1, b, c)))
+{
+    reveal(s_step01);
+    lemma_step3(a, b, c);
+}
+
+pub proof fn lemma01_let(kids: Seq<STerm>, d1: STerm)
+    requires
+        kids.len() % 2 == 1,
+        kids.len() >= 3,
+        s_step01(kids[(kids.len() - 1) / 2], d1),
+    ensures
+        s_step01(STerm::Node(Kind::Let, kids), STerm::Node(Kind::Let, kids.update((kids.len() - 1) / 2, d1))),
+{
+    reveal(s_step01);
+    lemma_step_let(kids);
+    let m = (kids.len() - 1) / 2;
+    if d1 == kids[m] { assert(kids.update(m, d1) =~= kids); }
+}
+
+pub broadcast group group_step01 { lemma01_refl, lemma01_real, lemma01_bin_left, lemma01_bin_right, lemma01_neg, lemma01_if }
 
 pub broadcast group group_step { lemma_step_var, lemma_step0, lemma_step_value, lemma_step1, lemma_step2, lemma_step3 }
 
